@@ -72,6 +72,30 @@ def usable_by_plan(plans, workers):
 
 
 def gen_cases(ctx):
+  """Wrapper that records what the generated cases cover (evidence histograms)."""
+  for c in _gen_cases(ctx):
+    ctx.count('kind', c['kind'])
+    ctx.count('workers', c['workers'])
+    if 'shards' in c:
+      ctx.count('shards', c['shards'])
+    if 'tasks' in c:
+      ctx.count('tasks', c['tasks'])
+    if 'threshold' in c:
+      ctx.count('threshold', c['threshold'])
+    nf = 0
+    for p in c['plans']:
+      for i, f in enumerate(p):
+        if f != 'ok':
+          nf += 1
+          ctx.count('fate', f)
+          ctx.count('fault_call_index', i)
+    ctx.count('faults_per_case', nf)
+    if c.get('fail_at') is not None or c.get('bad'):
+      ctx.count('task_error', 'yes')
+    yield c
+
+
+def _gen_cases(ctx):
   rng = ctx.rng
   quick = ctx.quick
   for c in ctx.corpus():
@@ -90,8 +114,19 @@ def gen_cases(ctx):
           plans[wi] = ['ok'] * idx + [f]
           yield dict(kind='sharded', workers=w, shards=s, n=n, pipe=('p0', 'p1', 'p2')[(idx + wi) % 3],
                      plans=plans, threshold=(0 if (idx + len(f)) % 4 == 0 else 3))
+  # --- sharded: every pair of faults (thorough) for one small configuration
+  if not quick:
+    pos = [(wi, idx) for wi in range(2) for idx in range(6)]
+    for a, b in itertools.combinations(pos, 2):
+      for fa in ('deadline', 'restart', 'app_error'):
+        for fb in ('deadline', 'restart', 'die'):
+          plans = [['ok'] * 6, ['ok'] * 6]
+          plans[a[0]][a[1]] = fa
+          plans[b[0]][b[1]] = fb
+          yield dict(kind='sharded', workers=2, shards=2, n=3, pipe='p0', plans=[_strip(p) for p in plans],
+                     threshold=(1 if (a[1] + b[1]) % 2 else 3))
   # --- sharded: random plans
-  for _ in range(120 if quick else 2500):
+  for _ in range(250 if quick else 8000):
     w = rng.choice([1, 2, 2, 3, 3])
     s = rng.choice([1, 2, 2, 3, 4])
     n = rng.randrange(max(1, s - 1), s + 4)
@@ -119,7 +154,7 @@ def gen_cases(ctx):
           plans = [[] for _ in range(w)]
           plans[wi] = ['ok'] * idx + [f]
           yield dict(kind='ac', workers=w, tasks=t, plans=plans, bad=[], ignore=False)
-  for _ in range(80 if quick else 1500):
+  for _ in range(80 if quick else 5000):
     w = rng.choice([1, 2, 3])
     t = rng.randrange(1, 5)
     plans = [['ok'] * 5 for _ in range(w)]
@@ -160,6 +195,8 @@ def run_impl(case):
   else:
     raise ValueError(kind)
   obs['kind'] = kind
+  obs['faultfree'] = all(f == 'ok' for p in case['plans'] for f in p) and not case.get('bad') \
+      and case.get('fail_at') is None and kind != 'f21'
   obs['proj'] = project(case, obs)     # the observation in the model's vocabulary (used by `compare`)
   return obs
 
@@ -475,10 +512,11 @@ def compare(obs, mobs):
       if t['outcome'] == p['outcome'] and res == p['result'] and t['complete'] == p['complete']:
         return None
   if not mobs['exhaustive']:
-    # sampled schedules under-approximate the model's behaviours: only the (schedule-independent by theorem)
-    # successful answer is binding
-    if mobs['terminals'] and all(t['outcome'] == 'returned' for t in mobs['terminals']) and not mobs['stuck']:
-      return f'model: every sampled schedule returns normally; real run: {p}'
+    # sampled / truncated explorations under-approximate the model's behaviours (which worker meets which fault
+    # depends on the schedule): a miss is inconclusive, except for a fault-free plan, whose answer is unique
+    # (theorem C16_sharded)
+    if obs.get('faultfree'):
+      return f'model: a fault-free run returns normally with everything delivered once; real run: {p}'
     return None
   return f'real observation {p} is not a terminal observation of the model {mobs["terminals"][:6]}'
 
